@@ -35,7 +35,7 @@ Fixpoint b192_enc_loop (fuel : nat) (src : bytes) (which buf : N) (last : bool) 
 Definition b192_encode (src : bytes) : bytes :=
   let '(which, buf, last, out) := b192_enc_loop (length src) src 1 0 false [] in
   let which := which - 1 in
-  rev (if N.eqb which 0 || (N.eqb which 7 && last) then out
+  frev (if N.eqb which 0 || (N.eqb which 7 && last) then out
        else if N.eqb which 7 || negb last then u8 (buf / 192) :: out
        else out).
 
@@ -65,4 +65,4 @@ Fixpoint b192_dec_loop (fuel : nat) (src : bytes) (which buf : N) (out : list N)
   end.
 
 Definition b192_decode (src : bytes) : res bytes :=
-  Ok (rev (b192_dec_loop (length src) src 1 0 [])).
+  Ok (frev (b192_dec_loop (length src) src 1 0 [])).
